@@ -6,6 +6,6 @@ PROP = "C05"
 
 def run(rep, tier):
     return run_core(
-        rep, "C05", ['flat_args_s', 'prov', 'val', 'consten'], ['flat_args_s', 'prov', 'val', 'consten'], tier,
+        rep, "C05", ['flat_args_s', 'prov', 'val', 'consten', 'plural'], ['flat_args_s', 'prov', 'val', 'consten', 'plural'], tier,
         "designs whose methods take a 1-bit argument (free input per call site) and return its negation: when an exclusive method runs its data_in equals the argument of the single active site, a nonexclusive method sees the OR-combiner over exactly the active sites, every active caller's result copy equals the method output, also through provide() aliases; all valuations of argument / ready / condition inputs; non-trivial = valuations where a nonexclusive method combines two or more active calls",
         scheds=("eager",), floors={"designs_simulated": 500, "transitions": 100000, "nt_combiner_multi": 1000})
